@@ -49,8 +49,15 @@ theorem step_counter (cfg : Cfg) (m c : Nat) (g : G) (pend : Tid → Bool) (e : 
   cases e with
   | loc t op => rw [step_loc]; exact ⟨hI, by simp [incs]⟩
   | spawn t v =>
-    rcases step_spawn cfg g t v with ⟨_, _, hg⟩ | ⟨_, hg⟩ <;> rw [hg] <;>
-      exact ⟨hI, by generalize (step cfg g (.spawn t v)).2 = o; cases o <;> simp [incs]⟩
+    have hr := step_spawn_rest cfg g t v
+    refine ⟨?_, ?_⟩
+    · intro t' hp
+      have := hI t' hp
+      rw [hr.2.1, hr.2.2.2, hr.2.2.1]
+      exact this
+    · rw [hr.2.2.1]
+      generalize (step cfg g (.spawn t v)).2 = o
+      cases o <;> simp [incs]
   | join t u =>
     simp only [step]
     split
